@@ -313,10 +313,16 @@ impl Callbacks for Cb {
                 .iter_enumerated()
                 .map(|(l, d)| format!("{{\"ty\":{},\"name\":{}}}", esc(&cx.ty_str(d.ty)), names[l.as_usize()]))
                 .collect();
+            // the generic parameters in the order a call's generic arguments are listed (parent's first)
+            let generics: Vec<String> = if matches!(kind, DefKind::Fn | DefKind::AssocFn) {
+                ty::GenericArgs::identity_for_item(tcx, did).iter().map(|a| esc(&a.to_string())).collect()
+            } else {
+                vec![]
+            };
             let parent_fn = if matches!(kind, DefKind::Closure) { esc(&tcx.def_path_str(tcx.typeck_root_def_id(did))) } else { "null".to_string() };
             let _ = write!(
                 out,
-                "{{\"path\":{},\"kind\":{},\"vis\":{},\"unsafe\":{},\"impl_self\":{},\"impl_trait\":{},\"in_trait\":{},\"parent_fn\":{},\"file\":{},\"line\":{},\"macro\":{},\"nargs\":{},\"locals\":[{}],\"upvars\":[{}],\"blocks\":[",
+                "{{\"path\":{},\"kind\":{},\"vis\":{},\"unsafe\":{},\"impl_self\":{},\"impl_trait\":{},\"in_trait\":{},\"parent_fn\":{},\"file\":{},\"line\":{},\"macro\":{},\"nargs\":{},\"generics\":[{}],\"locals\":[{}],\"upvars\":[{}],\"blocks\":[",
                 esc(&tcx.def_path_str(did)),
                 esc(&format!("{:?}", kind)),
                 esc(&vis),
@@ -329,6 +335,7 @@ impl Callbacks for Cb {
                 loc.line,
                 span.from_expansion(),
                 body.arg_count,
+                generics.join(","),
                 locals.join(","),
                 upvars.join(",")
             );
